@@ -15,6 +15,10 @@ type FaultPlan struct {
 	mu      sync.Mutex
 	N       int
 	Kind    string
+	// CommitN > 0 additionally fails the CommitN-th top-level COMMIT (two-fault plans:
+	// e.g. a deadlock that sends the operation to its retry path, then a failing commit there)
+	CommitN     int
+	CommitFired bool
 	calls   int
 	Sites   []string // sites seen (dry pass)
 	Fired   bool
@@ -73,6 +77,14 @@ func (p *FaultPlan) Install(e *Env) func() {
 			p.N--
 			if p.N == 0 {
 				p.Fired, p.FiredAt = true, "COMMIT"
+				return errors.New("driver: bad connection (injected at COMMIT)")
+			}
+		}
+		if p.CommitN > 0 && !p.CommitFired {
+			p.CommitN--
+			if p.CommitN == 0 {
+				p.CommitFired = true
+				p.FiredAt += "+COMMIT"
 				return errors.New("driver: bad connection (injected at COMMIT)")
 			}
 		}
